@@ -19,6 +19,7 @@ LEVEL = "exploration"
 RULE = ("lane B: one of ~1840 real source files (tests/source, tests/target, src) x 0-3 token-level mutations (delete, "
         "duplicate, swap, truncate incl. mid-token, delimiter imbalance, non-ASCII insertion) and/or an arbitrary re-layout "
         "(all whitespace redrawn, breaks inserted at token boundaries) x swarm configuration "
+        "[lane D: a valid input whose k-th mutating file-system call fails in files / backup mode] "
         "(max_width 20..200 and >= 5*tab_spaces, tab_spaces 1..8, hard_tabs, style edition, error_on_line_overflow / "
         "error_on_unformatted always drawn, up to 6 more options) x delivery (root path, out-of-line module of a tiny "
         "root, stdin) x nesting amplifier (<= 32 levels); lane C: injected panic at each of the seven containment sites "
@@ -128,7 +129,11 @@ def gen_use_group(rng):
 
 
 def generate(rng, tier):
-    lane = "C" if rng.chance(12) else ("G" if rng.chance(10) else "B")
+    lane = "C" if rng.chance(12) else ("G" if rng.chance(10) else ("D" if rng.chance(6) else "B"))
+    if lane == "D":
+        # an ordinary, valid input whose result cannot be stored: the k-th mutating file-system call fails
+        return {"lane": "D", "text": gen_rust.unformatted(rng, 2), "backup": rng.chance(50), "k": rng.range(1, 4),
+                "errno": rng.choice([28, 13, 5, 30, 21, 122]), "module": rng.chance(40), "hashseed": rng.below(1 << 32)}
     if lane == "G":
         text = gen_use_group(rng) + gen_rust.unformatted(rng, 1) + (gen_use_group(rng) if rng.chance(30) else "")
         cfg = draw_config(rng)
@@ -191,6 +196,24 @@ def execute(case):
     with core.Scratch() as sc:
         if case["lane"] == "C":
             return _lane_c(case, v, sc)
+        if case["lane"] == "D":
+            files = {"w/main.rs": ("mod input;\n" if case["module"] else "") + case["text"]}
+            if case["module"]:
+                files["w/input.rs"] = gen_rust.tiny_unformatted("m")
+            sc.fresh_world({"files": files})
+            res = core.run_inv(sc, {"argv": (["--backup"] if case["backup"] else []) + ["main.rs"], "cwd": "w",
+                                    "hashseed": case["hashseed"], "plan": ["* mut %d * errno %d" % (case["k"], case["errno"])]})
+            v.account(res)
+            v.planned("errno")
+            if any(e.fault for e in res.events):
+                v.fired("errno")
+                ab = core.abnormal(res)
+                if ab:
+                    v.add("C16:%s|io-error-while-emitting" % ab, "errno %d on mutating op %d (%s): status=%s stderr=%r" % (
+                        case["errno"], case["k"], "--backup" if case["backup"] else "files", res.status(), core.text_of(res.stderr)[:200]))
+                v.probe("io-error-while-emitting")
+            v.sample = v.sample or {"lane": "D", "plan": "* mut %d * errno %d" % (case["k"], case["errno"]), "status": res.status()}
+            return v
         files = {}
         cfg = dict(case["config"])
         data = case["text"].encode("utf-8", "replace")
@@ -332,7 +355,7 @@ def rng_pick(case, opts):
 
 
 def shrinks(case):
-    if case["lane"] != "B":
+    if case["lane"] != "B" or "config" not in case:
         return
     cfg = case["config"]
     for k in list(cfg):
